@@ -62,6 +62,7 @@ struct P {
     int generation;
     bool in_call; struct call call;
     uint64_t buf_amt;                                  /* the amount variable of a buffer call in progress (outlives a stop) */
+    bool buf_open;                                     /* ... and whether that call's account is still open (not yet added to the totals below) */
     bool own_res[MAXO]; uint64_t own_pool[MAXO];       /* the script's own bookkeeping, from return codes */
     uint64_t my_timers[6]; int n_my_timers;
     int steps, max_steps;
